@@ -83,6 +83,23 @@ func runExpireVotes(ctx *action.Context, tx action.RawTx) (bool, action.Response
 		return false, result
 	}
 
+	//A proposal expires only out of the voting stage and only once its voting deadline has passed: the
+	//block hooks queue this transaction under exactly this condition, a submitted one must meet it too
+	if proposal.Status != governance.ProposalStatusVoting {
+		result := action.Response{
+			Events: action.GetEvent(expireVotes.Tags(), "expire_votes_failed"),
+			Log:    governance.ErrStatusNotVoting.Marshal(),
+		}
+		return false, result
+	}
+	if ctx.Header.Height <= proposal.VotingDeadline {
+		result := action.Response{
+			Events: action.GetEvent(expireVotes.Tags(), "expire_votes_failed"),
+			Log:    governance.ErrInvalidVotingDeadline.Marshal(),
+		}
+		return false, result
+	}
+
 	//Update outcome and status of proposal
 	proposal.Status = governance.ProposalStatusCompleted
 	proposal.Outcome = governance.ProposalOutcomeInsufficientVotes
